@@ -160,8 +160,10 @@ pub fn gen_case(t: &mut Tape) -> Case {
     };
     // an associated fn without a receiver (static selectors): `Impl<T>`'s is `T`'s
     let selfless = !dynamic && t.chance(1, 5);
+    // (its first parameter may have the name the macro uses for the receiver of generated impl-block methods)
+    let selfless_impl_named = selfless && t.flip();
     let (selfless_decl, selfless_impl) = if selfless {
-        ("    fn make(x: i32, y: i32) -> String;\n", "    fn make(x: i32, y: i32) -> String { let __r = format!(\"MK|{}|{}\", x, y); rt::trace(__r.clone()); __r }\n")
+        (if selfless_impl_named { "    fn make(__impl: i32, y: i32) -> String;\n" } else { "    fn make(x: i32, y: i32) -> String;\n" }, "    fn make(x: i32, y: i32) -> String { let __r = format!(\"MK|{}|{}\", x, y); rt::trace(__r.clone()); __r }\n")
     } else {
         ("", "")
     };
@@ -459,6 +461,9 @@ pub fn gen_case(t: &mut Tape) -> Case {
     if selfless {
         classes.push("associated_fn_without_receiver");
     }
+    if selfless_impl_named {
+        classes.push("associated_fn_whose_first_parameter_is_named___impl");
+    }
     if sup_same_name {
         classes.push("supertrait_method_of_the_same_name");
     }
@@ -476,7 +481,7 @@ pub fn gen_case(t: &mut Tape) -> Case {
         extras.push("fn sized<W: Debug + Default, const K: usize>(&self, x: i32) -> String");
     }
     if selfless {
-        extras.push("fn make(x: i32, y: i32) -> String");
+        extras.push(if selfless_impl_named { "fn make(__impl: i32, y: i32) -> String" } else { "fn make(x: i32, y: i32) -> String" });
     }
     if sup_same_name {
         extras.push("[Sup has a provided method named like the first method]");
